@@ -168,6 +168,15 @@ def flatten_desc(node, values=None):
     return {"comps": comps, "links": links, "exposed": exposed}
 
 
+def tree_json(node):
+    """the hierarchy as the request of the driver op `hsolve` (non-parametric leaves; a placed object is repeated)"""
+    if node.kind == "leaf":
+        return {"leaf": {"pins": list(node.pins), "idx": list(node.idx), "S": gen.mat_json(node.S0)}}
+    return {"children": [tree_json(ch) for ch, _ in node.children],
+            "links": [{"a": i, "p": p, "b": j, "q": q} for (i, p, j, q) in node.links],
+            "exposed": [{"name": nm, "c": i, "p": p} for (nm, i, p) in node.expose]}
+
+
 def depth(node):
     if node.kind == "leaf":
         return 0
